@@ -184,3 +184,143 @@ Theorem markdown_from_init src_valid doc :
   markdown_complete src_valid b_init doc <> Panic /\
   forall text es, markdown_complete src_valid b_init doc = Ok (text, es) -> Forall (within_text text) es.
 Proof. apply (markdown_complete_safe [] [] src_valid b_init s_init doc). apply (rel_init m_init fresh_init). Qed.
+
+(* ---------- no panic without any hypothesis on the bytes goldmark yields ---------- *)
+Definition nsafe (r : res unit bstate) (b : bstate) : Prop :=
+  r <> Panic /\ forall b', r = Ok b' -> binv b' /\ len (b_msg b) <= len (b_msg b').
+Definition ngood (b0 b : bstate) : Prop := binv b /\ len (b_msg b0) <= len (b_msg b).
+
+Lemma ngood_refl b : binv b -> ngood b b.
+Proof. intros H; split; [exact H|lia]. Qed.
+Lemma ngood_write b0 b x : ngood b0 b -> ngood b0 (b_write b x).
+Proof.
+  intros [H L]. split.
+  - eapply binv_grow; [exact H|reflexivity..|]. cbn [b_write b_msg]. rewrite len_app. pose proof (len_nonneg x). lia.
+  - cbn [b_write b_msg]. rewrite len_app. pose proof (len_nonneg x). lia.
+Qed.
+Lemma ngood_write_byte b0 b c : ngood b0 b -> ngood b0 (b_write_byte b c).
+Proof.
+  intros [H L]. split.
+  - eapply binv_grow; [exact H|reflexivity..|]. cbn [b_write_byte b_msg]. rewrite len_app. unfold len at 3; cbn. lia.
+  - cbn [b_write_byte b_msg]. rewrite len_app. unfold len at 3; cbn. lia.
+Qed.
+Lemma ngood_apply_if b0 b tag : ngood b0 b -> ngood b0 (apply_if (b_token b0) b tag).
+Proof.
+  intros [H L]. unfold apply_if. destruct (b_u16 b - t_u16 (b_token b0) >? 0); [|split; assumption].
+  split; [apply binv_apply; cbn [b_token t_u8]; pose proof (len_nonneg (b_msg b0)); lia|exact L].
+Qed.
+Lemma ngood_trans a b c : ngood a b -> len (b_msg b) <= len (b_msg c) -> binv c -> ngood a c.
+Proof. intros [_ L] L' H; split; [exact H|lia]. Qed.
+
+Lemma write_raw_ngood :
+  forall n b0 b, ngood b0 b -> ngood b0 (write_raw b n).
+Proof.
+  apply (mdi_mut
+    (fun n => forall b0 b, ngood b0 b -> ngood b0 (write_raw b n))
+    (fun l => forall b0 b, ngood b0 b -> ngood b0 (write_raws b l))); cbn [write_raw write_raws].
+  - intros raw unesc brk b0 b H. apply ngood_write; exact H.
+  - intros bs b0 b H. apply ngood_write; exact H.
+  - intros kids IH b0 b H; auto.
+  - intros tag kids IH b0 b H; auto.
+  - intros kids IH f b0 b H; auto.
+  - intros kids IH b0 b H; auto.
+  - intros b0 b H; exact H.
+  - intros h IHh t IHt b0 b H. apply IHt, IHh, H.
+Qed.
+Lemma write_raws_ngood l : forall b0 b, ngood b0 b -> ngood b0 (write_raws b l).
+Proof. induction l as [|h t IH]; cbn [write_raws]; intros b0 b H; [exact H|apply IH, write_raw_ngood, H]. Qed.
+
+Lemma nsafe_ok b0 b : ngood b0 b -> nsafe (Ok b) b0.
+Proof. intros H; split; [discriminate|]. intros b' E; inversion E; subst; exact H. Qed.
+
+Lemma render_inl_nsafe :
+  forall n b, binv b -> nsafe (render_inl b n) b.
+Proof.
+  apply (mdi_mut
+    (fun n => forall b, binv b -> nsafe (render_inl b n) b)
+    (fun l => forall b, binv b -> nsafe (render_inls b l) b)); cbn [render_inl render_inls].
+  - intros raw unesc brk b H. apply nsafe_ok.
+    destruct brk; [apply ngood_write_byte|]; apply ngood_write, ngood_refl, H.
+  - intros bs b H. apply nsafe_ok, ngood_write, ngood_refl, H.
+  - intros kids IH b H. apply nsafe_ok, ngood_apply_if, write_raws_ngood, ngood_refl, H.
+  - intros tag kids IH b H. destruct (IH b H) as [Hnp Hk].
+    destruct (render_inls b kids) as [b1|e|]; cbn [bind]; [|split; discriminate|contradiction].
+    apply nsafe_ok, ngood_apply_if. exact (Hk b1 eq_refl).
+  - intros kids IH f b H. destruct (IH b H) as [Hnp Hk].
+    destruct (render_inls b kids) as [b1|e|]; cbn [bind]; [|split; discriminate|contradiction].
+    pose proof (Hk b1 eq_refl) as G.
+    destruct (b_u16 b1 - t_u16 (b_token b) =? 0); [apply nsafe_ok, G|].
+    destruct (f <? 0); [split; discriminate|]. destruct (f =? 0); [apply nsafe_ok, G|].
+    apply nsafe_ok. destruct G as [_ L]. split; [|exact L].
+    apply binv_apply; cbn [b_token t_u8]; pose proof (len_nonneg (b_msg b)); lia.
+  - intros kids IH b H; auto.
+  - intros b H. apply nsafe_ok, ngood_refl, H.
+  - intros h IHh t IHt b H. destruct (IHh b H) as [Hnp Hk].
+    destruct (render_inl b h) as [b1|e|]; cbn [bind]; [|split; discriminate|contradiction].
+    destruct (Hk b1 eq_refl) as [H1 L1]. destruct (IHt b1 H1) as [Hnp2 Hk2].
+    split; [exact Hnp2|]. intros b' E. destruct (Hk2 b' E) as [H2 L2]. split; [exact H2|lia].
+Qed.
+Lemma render_inls_nsafe l : forall b, binv b -> nsafe (render_inls b l) b.
+Proof.
+  induction l as [|h t IH]; cbn [render_inls]; intros b H; [apply nsafe_ok, ngood_refl, H|].
+  destruct (render_inl_nsafe h b H) as [Hnp Hk].
+  destruct (render_inl b h) as [b1|e|]; cbn [bind]; [|split; discriminate|contradiction].
+  destruct (Hk b1 eq_refl) as [H1 L1]. destruct (IH b1 H1) as [Hnp2 Hk2].
+  split; [exact Hnp2|]. intros b' E. destruct (Hk2 b' E) as [H2 L2]. split; [exact H2|lia].
+Qed.
+
+Lemma render_block_nsafe :
+  forall n b, binv b -> nsafe (render_block b n) b.
+Proof.
+  apply (mdb_mut
+    (fun n => forall b, binv b -> nsafe (render_block b n) b)
+    (fun l => forall first b, binv b -> nsafe (render_blocks b l first) b)); cbn [render_block render_blocks].
+  - intros kids b H. apply render_inls_nsafe, H.
+  - intros kids IH b H. destruct (IH true b H) as [Hnp Hk].
+    destruct (render_blocks b kids true) as [b1|e|]; cbn [bind]; [|split; discriminate|contradiction].
+    apply nsafe_ok, ngood_apply_if. exact (Hk b1 eq_refl).
+  - intros lines lang b H. apply nsafe_ok, ngood_apply_if, ngood_write, ngood_refl, H.
+  - intros kids IH b H; auto.
+  - intros first b H. apply nsafe_ok, ngood_refl, H.
+  - intros h IHh t IHt first b H.
+    assert (ngood b (if first then b else b_write b [10; 10])) as [H0 L0]
+      by (destruct first; [apply ngood_refl, H|apply ngood_write, ngood_refl, H]).
+    destruct (IHh _ H0) as [Hnp Hk].
+    destruct (render_block (if first then b else b_write b [10; 10]) h) as [b1|e|]; cbn [bind];
+      [|split; discriminate|contradiction].
+    destruct (Hk b1 eq_refl) as [H1 L1]. destruct (IHt false b1 H1) as [Hnp2 Hk2].
+    split; [exact Hnp2|]. intros b' E. destruct (Hk2 b' E) as [H2 L2]. split; [exact H2|lia].
+Qed.
+Lemma render_blocks_nsafe l : forall first b, binv b -> nsafe (render_blocks b l first) b.
+Proof.
+  induction l as [|h t IH]; cbn [render_blocks]; intros first b H; [apply nsafe_ok, ngood_refl, H|].
+  assert (ngood b (if first then b else b_write b [10; 10])) as [H0 L0]
+    by (destruct first; [apply ngood_refl, H|apply ngood_write, ngood_refl, H]).
+  destruct (render_block_nsafe h _ H0) as [Hnp Hk].
+  destruct (render_block (if first then b else b_write b [10; 10]) h) as [b1|e|]; cbn [bind];
+    [|split; discriminate|contradiction].
+  destruct (Hk b1 eq_refl) as [H1 L1]. destruct (IH false b1 H1) as [Hnp2 Hk2].
+  split; [exact Hnp2|]. intros b' E. destruct (Hk2 b' E) as [H2 L2]. split; [exact H2|lia].
+Qed.
+
+Theorem markdown_no_panic src_valid doc : markdown_complete src_valid b_init doc <> Panic.
+Proof.
+  unfold markdown_complete. destruct src_valid; [|discriminate].
+  destruct (render_blocks_nsafe doc true b_init binv_init) as [Hnp Hk].
+  destruct (render_blocks b_init doc true) as [b1|e|]; cbn [bind]; [|discriminate|contradiction].
+  destruct (Hk b1 eq_refl) as [H1 _]. apply complete_no_panic, binv_shrink, H1.
+Qed.
+
+(* within the text, with the text shown to be valid UTF-8 and the bound in code-point terms *)
+Theorem markdown_within_unicode src_valid doc text es :
+  mdbs_ok doc -> markdown_complete src_valid b_init doc = Ok (text, es) ->
+  exists cps, Forall cp_valid cps /\ text = utf8_encode cps /\
+    Forall (fun e => 0 <= e_off e /\ 0 <= e_len e /\ e_off e + e_len e <= u16c cps) es.
+Proof.
+  intros Hok. unfold markdown_complete. destruct src_valid; [|discriminate].
+  destruct (render_blocks_safe [] [] doc true b_init s_init (rel_init m_init fresh_init) Hok) as [Hnp Hk].
+  destruct (render_blocks b_init doc true) as [b1|e|]; cbn [bind]; [|discriminate|contradiction].
+  destruct (Hk b1 eq_refl) as [s1 [R1 _]].
+  destruct (complete_within_unicode _ _ _ _ (rel_shrink _ _ _ _ R1)) as [cps [es' [Hv [E Hw]]]].
+  rewrite E. intros Heq; inversion Heq; subst. exists cps; auto.
+Qed.
